@@ -74,6 +74,11 @@ CHECKS["C18"] = dict(cat="other", technique="symbolic abstract interpretation wi
     note="Trusted: rem_euclid's contract; rustc MIR/const evaluation. Not decided: accuracy and ranges of the trigonometric functions, behaviour at zero vectors.",
     ref="§8.7 C18")
 
+CHECKS["C16"] = dict(cat="other", technique="symbolic abstract interpretation of the packing / channel-plumbing / clamping / saturating colour functions on symbolic channels",
+    text="Decides the structural second half of the property for all inputs: to_rgb_u32 / to_rgba_u32 / to_argb_u32 put the channels in the documented byte lanes; RGB<->RGBA and HSL<->HSLA keep the colour channels in place and set alpha to 0xFF / 1.0 resp. drop it; RGBA<->HSLA carry alpha through; float -> 8-bit is (clamp(c,0,1)*255) as u8 per channel; 8-bit colour + difference is clamp(i32(c)+d, 0, 255) as u8 (saturates, never wraps); channel accessors read their own lane. The HSL<->RGB round trip is not claimed.",
+    note="Trusted: saturating float->int casts; rustc MIR construction. Not decided: HSL<->RGB round-trip accuracy (1e-4 / 8/255), in-range results, hue wrap - numeric.",
+    ref="§8.8 C16")
+
 NA = {}
 
 
